@@ -57,7 +57,15 @@ func (k Keeper) BridgeCallHandler(ctx sdk.Context, msg *types.MsgBridgeCallClaim
 			},
 		)
 	}
-	return k.BridgeCallFailedRefund(ctx, msg.GetRefundAddr(), baseCoins, msg.EventNonce)
+	// the tokens were deposited to the receiver before the (failed) call: the refund is funded
+	// from the refund address, so the deposit has to be moved there first
+	refundAddr := msg.GetRefundAddr()
+	if !bytes.Equal(receiverAddr.Bytes(), refundAddr.Bytes()) && !baseCoins.IsZero() {
+		if err = k.bankKeeper.SendCoins(ctx, receiverAddr.Bytes(), refundAddr.Bytes(), baseCoins); err != nil {
+			return err
+		}
+	}
+	return k.BridgeCallFailedRefund(ctx, refundAddr, baseCoins, msg.EventNonce)
 }
 
 func (k Keeper) BridgeCallEvm(ctx sdk.Context, sender, refundAddr, to, receiverAddr common.Address, baseCoins sdk.Coins, data, memo []byte, value sdkmath.Int, isMemoSendCallTo bool) error {
